@@ -108,6 +108,9 @@ def schedule (e : Exec) (panicking : Bool := false) : Except Panic (Exec × Bool
     if ths.threads.all Thread.isTerminated then pure ({ e with path, threads := ths }, true)
     else throw .deadlock
   | some nid =>
+    -- (`self.threads.active()` indexes the thread table: a path entry that names a thread that does not exist
+    -- — possible only in a hand-made checkpoint — panics "index out of bounds")
+    if nid ≥ ths.threads.length then throw (.internal 31)
     let act := ths.get nid
     let (ths, objs) ← match act.operation with
       | none => pure (ths, e.objs)
